@@ -1,4 +1,4 @@
-HOOK_COMMITS = ["4d47cea"]
+HOOK_COMMITS = ["4d47cea", "08b09e0"]
 
 _PENDING = "no check registered yet: the model/theorems/correspondence for this property are not built at this commit (see DESIGN.md section 6 for the order of work)"
 NOT_APPLICABLE = {("C%02d" % i): _PENDING for i in range(1, 21)}
@@ -15,5 +15,17 @@ META = {
         "note": "Trusted: Coq kernel; extraction (ExtrOcamlBasic); the hand-written model corresponds to the code only on the inputs "
                 "the correspondence run exercised (distribution in the evidence); link-level part of a flow is C08/C09.",
         "technique": "Coq proof (invariant by induction over event histories) + extracted-model-vs-implementation correspondence",
+    },
+    "C08": {
+        "text": "Coq theorems (Props/C08.v): for every initial delivery-count incl. the wrap and every flow/send history a delivery "
+                "leaves only inside [delivery-count_rcv, +link-credit_rcv) of the latest crediting flow; one credit per delivery; "
+                "drain zeroes the credit, advances the count by the unused credit and replies with credit 0; and, over all "
+                "interleavings of the waiting task with the granting task, no reachable state has the send asleep with credit "
+                "available - stated for the check/register order re-extracted from the source each run (Tie_WakeOrder). "
+                "Correspondence through the facade every run; a multi-thread stress of the real pair searches for a lost wake-up.",
+        "design_ref": "DESIGN.md section 4, C08",
+        "note": "Trusted: Coq kernel; extraction; Notify modelled by a generation counter (validated by stress, not proved about tokio); "
+                "model tied to code on exercised inputs and by the regenerated order table.",
+        "technique": "Coq proof (invariant over histories; invariant of an interleaving relation) + regenerated table + correspondence + stress search",
     },
 }
